@@ -10,7 +10,7 @@ func init() {
 				Reach:     []string{"failure signal", "answer accepted"},
 				Functions: []string{"queryer.(*MultiOpQueryer).Query", "queryer.(*MultiOpQueryer).queryBatch", "queryer.(*MultiOpQueryer).fetch", "queryer.(*MultiOpQueryer).fetchFile", "queryer.(*MultiOpQueryer).sendQueryRequest", "queryer.(*MultiOpQueryer).sendRequest"}},
 			{Name: "mutilated-answers", Pkg: ".", Files: []string{"root/fed.go", "root/c01.go", "root/c02.go", "root/c10.go", "root/c09.go"}, Entry: "VerifMutilatedAnswers", Mode: "seq", Native: true,
-				Reach: []string{"failure signal reported", "mutilation explored"}, Functions: pipelineFns},
+				Reach: []string{"failure signal reported", "mutilation explored", "mutilated answer inside a batch"}, Functions: pipelineFns},
 		},
 		Assume: []string{
 			"net/http client = harness transport; encoding/json = abstract codec over the real decoder; the status code is a symbolic integer in [100,599], the answer length a symbolic integer in [0,n+2]",
